@@ -374,3 +374,42 @@ pub fn rich_block(coin: &str, h: u64, n_tx: usize, rng: &mut Rng, sh: &TxShape, 
         txs,
     }
 }
+
+
+/// rough size of the serialised chain (bytes), from the description
+pub fn chain_bytes(chain: &[BlockDesc]) -> u64 {
+    let mut n = 0u64;
+    for b in chain {
+        n += 90;
+        if let Some(a) = &b.auxpow {
+            n += 200 + 32 * (a.coinbase_branch.hashes.len() + a.chain_branch.hashes.len()) as u64;
+        }
+        for t in &b.txs {
+            n += 12;
+            for i in &t.inputs {
+                n += 42 + i.script_sig.0.len() as u64 + i.witness.iter().map(|w| w.0.len() as u64 + 3).sum::<u64>();
+            }
+            for o in &t.outputs {
+                n += 10 + o.script.0.len() as u64;
+            }
+        }
+    }
+    n
+}
+
+/// keep the number of read events of a run bounded (a 1-byte read chunk over megabytes of blocks
+/// would produce millions of trace events): raise the smallest chunks until bytes/chunk <= max_events
+pub fn fit_chunks(plan: &mut Plan, total_bytes: u64, max_events: u64) {
+    if plan.chunk_blk.is_empty() || total_bytes == 0 {
+        return;
+    }
+    let need = (total_bytes / max_events.max(1)) as usize + 1;
+    let avg = plan.chunk_blk.iter().sum::<usize>() / plan.chunk_blk.len();
+    if avg < need {
+        for c in plan.chunk_blk.iter_mut() {
+            if *c < need {
+                *c = need + (*c % 7);
+            }
+        }
+    }
+}
